@@ -114,10 +114,13 @@ structure PI where
 
 def PI.term (pi : PI) : Term := .a2 "/" (.atom pi.name) (.int pi.arity)
 
-/-- a stored clause: identity (the bytecode array in Go) and the term kept in `clause.raw` -/
+/-- a stored clause: identity (the bytecode array in Go), the term kept in `clause.raw`, and the
+    body its bytecode executes: `compile` makes ONE CLAUSE PER TOP-LEVEL ALTERNATIVE of a rule's
+    body; all of them keep the whole rule as `raw`, each executes its own alternative -/
 structure Stored where
   id : Nat
   raw : Term
+  body : Term
   deriving DecidableEq
 
 /-- `userDefined` (dynamic flag and clause slice); builtins and control constructs are
@@ -151,7 +154,7 @@ inductive Variant | pinned | fixed
 /-- an open goal that can be backtracked into -/
 inductive Iter where
   /-- `clauses.call`: goal and the not yet tried part of the snapshot (copies of the clause structs) -/
-  | call (goal : Term) (rest : List Stored)
+  | call (goal : Term) (rest : List Stored) (pending : List Term)
   /-- `Retract`: pattern, procedure, not yet tried part of the snapshot, its position `i` in the
       snapshot, and the closure variable `deleted` -/
   | retract (pat : Term) (pi : PI) (rest : List Stored) (i deleted : Nat)
@@ -254,10 +257,16 @@ def compile : Term → Except Term (List Term)
     else .error (typeErr "callable" b)
   | t => .ok [t]
 
-/-- give consecutive identities to freshly compiled clauses -/
-def stamp : Nat → List Term → List Stored
+/-- the bodies of the clauses `compile` makes of a clause term, in the order it makes them: the
+    top-level alternatives of a rule's body from left to right; `true` for a fact -/
+def altsOf : Term → List Term
+  | .app ":-" (.cons _ (.cons b .nil)) => altGoals b
+  | _ => [.atom "true"]
+
+/-- give consecutive identities to freshly compiled clauses `(raw, body)` -/
+def stamp : Nat → List (Term × Term) → List Stored
   | _, [] => []
-  | n, r :: rs => ⟨n, r⟩ :: stamp (n + 1) rs
+  | n, r :: rs => ⟨n, r.1, r.2⟩ :: stamp (n + 1) rs
 
 /-! ### `assertMerge` -/
 
@@ -274,7 +283,7 @@ def assertMerge (st : State) (t : Term) (front : Bool) : State × Option Term :=
         | none => ⟨true, []⟩
       if p.dynamic = false then (st, some (permissionErr "modify" "static_procedure" pi.term))
       else
-        let added := stamp st.nextId raws
+        let added := stamp st.nextId (raws.zip (altsOf t))
         let cs := if front then added ++ p.clauses else p.clauses ++ added
         ({ st with procs := st.procs.set pi { p with clauses := cs }
                    nextId := st.nextId + raws.length }, none)
@@ -313,19 +322,50 @@ def openCall (st : State) (goal : Term) : State × Out :=
   | .ok pi =>
     match st.procs.get pi with
     | none => (st, .error (existenceErr "procedure" pi.term))
-    | some p => pushIter st (.call goal p.clauses)
+    | some p => pushIter st (.call goal p.clauses [])
 
-/-- try the snapshot clauses in order: fresh variables for the clause (`NewVariable()` per
-    activation), head unification; the body of a stored clause is assumed to succeed exactly
-    once (the streams only store facts and rules whose alternatives are `true`). -/
+/-- all solutions, in order, of a clause body under a substitution: conjunction, disjunction and
+    if-then-else (the bootstrap clauses of `','/2`, `;/2`, `->/2`) over `true`, `fail` and `=/2`.
+    These are the bodies the streams store; any other goal is taken to fail. -/
+def solve : Nat → Term → Subst → List Subst
+  | 0, _, _ => []
+  | fuel + 1, g, σ =>
+    match g with
+    | .atom "true" => [σ]
+    | .atom "fail" => []
+    | .app "=" (.cons a (.cons b .nil)) =>
+      match unify fuelU σ a b with
+      | some σ' => [σ']
+      | none => []
+    | .app "," (.cons a (.cons b .nil)) => (solve fuel a σ).flatMap (solve fuel b)
+    | .app ";" (.cons (.app "->" (.cons c (.cons t .nil))) (.cons e .nil)) =>
+      match solve fuel c σ with
+      | σ1 :: _ => solve fuel t σ1
+      | [] => solve fuel e σ
+    | .app ";" (.cons a (.cons b .nil)) => solve fuel a σ ++ solve fuel b σ
+    | .app "->" (.cons c (.cons t .nil)) =>
+      match solve fuel c σ with
+      | σ1 :: _ => solve fuel t σ1
+      | [] => []
+    | _ => []
+
+/-- the answers one stored clause gives to a goal, in order: fresh variables for the clause
+    (`NewVariable()` per activation), head unification, then the solutions of ITS body -/
+def clauseAnswers (nv : Nat) (goal : Term) (c : Stored) : List Term :=
+  match unify fuelU [] goal (shift nv (headOf c.raw)) with
+  | none => []
+  | some σ => (solve fuelU (shift nv c.body) σ).map fun σ' => resolve fuelU σ' goal
+
+/-- try the snapshot clauses in order until one has an answer; its further answers are kept in
+    the iterator (Go computes them lazily; the bodies are pure, so it cannot be told apart) -/
 def nextCall (st : State) (h : Nat) (goal : Term) : List Stored → State × Out
-  | [] => ({ st with iters := st.iters.set h (.call goal []) }, .no)
+  | [] => ({ st with iters := st.iters.set h (.call goal [] []) }, .no)
   | c :: rest =>
-    let hd := shift st.nextVar (headOf c.raw)
+    let answers := clauseAnswers st.nextVar goal c
     let st := { st with nextVar := st.nextVar + maxVar c.raw }
-    match unify fuelU [] goal hd with
-    | some σ => ({ st with iters := st.iters.set h (.call goal rest) }, .answer (resolve fuelU σ goal))
-    | none => nextCall st h goal rest
+    match answers with
+    | a :: more => ({ st with iters := st.iters.set h (.call goal rest more) }, .answer a)
+    | [] => nextCall st h goal rest
 
 /-! ### `Retract` -/
 
@@ -387,7 +427,8 @@ def nextRetract (v : Variant) (st : State) (h : Nat) (pat : Term) (pi : PI) :
 
 def next (v : Variant) (st : State) (h : Nat) : State × Out :=
   match st.iters[h]? with
-  | some (.call goal rest) => nextCall st h goal rest
+  | some (.call goal rest (a :: more)) => ({ st with iters := st.iters.set h (.call goal rest more) }, .answer a)
+  | some (.call goal rest []) => nextCall st h goal rest
   | some (.retract pat pi rest i d) => nextRetract v st h pat pi rest i d
   | some .closed => (st, .no)
   | none => (st, .badHandle)
